@@ -142,9 +142,12 @@ def _object_stats(h, dist, keys):
             continue
         if "(" in key:
             name, arg = key[:-1].split("(")
-            out[key] = np.asarray(sut(getattr(h, name), float(arg), dist, what=f"HvsrAzimuthal.{name}"), dtype=float)
+            raw = sut(getattr(h, name), float(arg), dist, what=f"HvsrAzimuthal.{name}")
         else:
-            out[key] = np.asarray(sut(getattr(h, key), dist, what=f"HvsrAzimuthal.{key}"), dtype=float)
+            raw = sut(getattr(h, key), dist, what=f"HvsrAzimuthal.{key}")
+        out[key] = np.array(raw, dtype=float, copy=True)
+        if isinstance(raw, np.ndarray) and raw.ndim >= 1 and raw.flags.writeable:
+            raw[...] = -7.0          # returned arrays belong to the caller: editing them must not change later answers
     return out
 
 
